@@ -11,7 +11,8 @@ TRUSTED_BASE = [
 ]
 ASSUMPTIONS = {}
 NOTES = {}
-LEVELS = {}
+LEVELS = {'C03': 'proof', 'C13': 'proof', 'C16': 'proof', 'C17': 'proof'}
+DEFAULT_LEVEL = 'model_checking'
 UNITS = {}
 OBLIGATIONS = []
 
@@ -147,3 +148,21 @@ ob(name='lifetime.expected_destruction', kind='FC+', props=['C05', 'C06', 'C13',
 ob(name='lifetime.requirement_released_first', kind='FC+', props=['C13', 'C14', 'C15'], unit='lifetime', harness='h_lifetime.c', entry='l_released_first', variants=_SEQ3[:2], unwind=4, min_reach=0)
 ob(name='lifetime.two_requirements', kind='FC+', props=['C13', 'C14'], unit='lifetime', harness='h_lifetime.c', entry='l_two_monitors', unwind=4)
 ob(name='lifetime.copy_move_assign', kind='FC+', props=['C13', 'C14'], unit='lifetime', harness='h_lifetime.c', entry='l_copy_move_assign', unwind=4)
+
+# ----------------------------------------------------------------------------------------------
+# unit tracer: tracer nesting, trace_agent, set_reporter (C16, C17)
+UNITS['tracer'] = {
+    'opaque': [' get_lock$'], 'dyn_types': [],
+    'roots': {
+        'TRACER': 'rec:^tracer$', 'TRACER_CTOR': '6tracerC1Ev', 'TRACER_DTOR': 'dtor:^tracer$', 'SET_TRACER': '10set_tracerEPNS_6tracerE', 'TRACER_OBJ': '10tracer_objEv',
+        'TA': 'rec:^trace_agent$', 'TA_CTOR': '11trace_agentC1ENS_8location', 'TA_DTOR': 'dtor:^trace_agent$',
+        'TA_TRACE_PARAMS': '11trace_agent12trace_paramsIJSt17reference_wrapperIiEEEE', 'TA_TRACE_RETURN': '11trace_agent12trace_returnIRiEET_OS3_', 'TA_TRACE_EXCEPTION': '11trace_agent15trace_exceptionEv',
+        'SET_REPORTER1': r'12set_reporterESt8functionIFvNS_8severityEPKcmRKNSt7__cxx1112basic_stringIcSt11char_traitsIcESaIcEEEEE$', 'SET_REPORTER2': r'12set_reporterESt8function.*S0_IFvS3_EE$',
+        'SEND': '8reporterINS_11specializedEE4sendE', 'SEND_OK': '8reporterINS_11specializedEE6sendOkE',
+    },
+    'stub_aliases': {'VS_TRACE': r'^vs_.*6tracer5trace'},
+}
+ob(name='tracer.nesting', kind='FC+', props=['C17', 'C14'], unit='tracer', harness='h_tracer.c', entry='t_nesting', unwind=4,
+   bound='loop-free; nesting precondition: tracers are destroyed in reverse order of construction (stated assumption of C14/C17)')
+ob(name='tracer.trace_agent', kind='FC+', props=['C17', 'C08'], unit='tracer', harness='h_tracer.c', entry='t_agent', unwind=26)
+ob(name='reporter.set_reporter', kind='FC+', props=['C16', 'C15'], unit='tracer', harness='h_tracer.c', entry='r_set_reporter', unwind=4)
